@@ -149,7 +149,7 @@ PROPS = {
     ),
     'C06': dict(
         level='proof',
-        functions=[SEQ + f for f in ('__parse_group', '__init__', 'kappa', 'Omega', 'Omega_seq', 'kappa_X')] + [SP + f for f in ('get_kappa', 'get_Omega_sequence')],
+        functions=[SEQ + f for f in ('__parse_group', '__init__', 'kappa', 'Omega', 'Omega_seq', 'kappa_X')] + [SP + f for f in ('get_kappa', 'get_Omega_sequence', 'get_kappa_X', 'get_Omega')],
         lemmas=['rmax_lower'],
         native='c06',
         assumptions=['Omega() and kappa_X() are proved to return kappa_seq (the kappa of the statement, C01/C02/C03 specs) of the object built from a string that is, residue by residue, the documented recoding '
